@@ -204,12 +204,43 @@ def strat_detector(names):
                 kinds = [draw(st.sampled_from(X_KINDS + ["df", "df"] + one_d)) for _ in items]
             n = len(items)
             now = draw(st.lists(st.tuples(st.integers(0, n - 1), st.sampled_from([0, 0, 1, 3])), min_size=1, max_size=6))
+            if spec.family == "batch" and draw(st.booleans()):
+                now.append((0, draw(st.sampled_from([0, 1, 3]))))  # the reference batch is overwritten
             overwrites = sorted({(min(t + d, n - 1), t) for t, d in now})
             return {"det": name, "params": p, "ncols": ncols, "items": items, "kinds": kinds, "overwrites": [list(o) for o in overwrites], "seed_base": draw(vs.seed_base)}
 
         return s()
 
     return strat
+
+
+# ------------------------------------------------------------- enumerated grid
+def enum_alias_grid(tier, shard, nshards):
+    """every detector x every applicable input kind x overwrite target (reference / early / middle call) x delay,
+    on the fixed deterministic histories of the C14 grid: the finite classes are covered on every run"""
+    from vlib.props.c14 import GRID_PARAMS, grid_items
+
+    k = 0
+    for name in cat.ALL14:
+        spec = cat.SPECS[name]
+        ncols = 0 if spec.kind == "y" else (1 if spec.univariate else (3 if name == "PCACD" else 2))
+        variants = [ncols] if (spec.kind == "y" or spec.univariate or name == "PCACD") else [1, 2]
+        for nc in variants:
+            items = grid_items(spec, name, nc)
+            L = len(items)
+            if spec.kind == "y":
+                kinds_list = [[[a, b]] * L for a in Y_KINDS for b in Y_KINDS if a != "scalar" or b != "scalar"]
+            else:
+                ks = list(X_KINDS)
+                if spec.family == "stream" or nc == 1:
+                    ks += ["series", "nd1", "nd1_view"]
+                kinds_list = [[kk] * L for kk in ks] + [["ndC" if i % 2 else kk for i in range(L)] for kk in ("df", "view")]
+            for kinds in kinds_list:
+                for target in sorted({0, 1, L // 2, L // 2 + 1}):
+                    for delay in (0, 2):
+                        if k % nshards == shard:
+                            yield {"det": name, "params": GRID_PARAMS[name], "ncols": nc, "items": items, "kinds": kinds, "overwrites": [[min(target + delay, L - 1), target]], "seed_base": 7}
+                        k += 1
 
 
 # ----------------------------------------------------------------- injectors
@@ -355,6 +386,8 @@ PROPERTY = {
     "id": "C15",
     "level": "exploration",
     "rule": (
+        "alias_grid: enumerated - every detector x every applicable input kind (the same kind for all calls, or alternating with plain arrays) x "
+        "overwrite target (reference / second / middle calls) x delay (right after the call, two calls later) on fixed deterministic histories. "
         "detectors: for each of the 14 Streaming/Batch detectors a short multi-epoch history in which every argument is a fresh object of a "
         "drawn kind (ndarray C / Fortran order / non-contiguous view / read-only, 1-D arrays and 1-D views for univariate input, DataFrame single float block / mixed float32-float64, Series, "
         "list; labels as scalar / array / list / Series) and, after drawn calls (same call, next call, three calls later), the caller "
@@ -368,6 +401,7 @@ PROPERTY = {
         "empty windows / Dirichlet rounding of the resampling injectors are judged by C20, not here",
     ],
     "subchecks": [
+        SubCheck("alias_grid", check_detector, enumerate=enum_alias_grid, nontrivial=lambda L: "overwrite+2-later-updates" in L, shards_quick=16, shards_thorough=16, exhaustive=True, describe=_desc),
         SubCheck("stream_x", check_detector, strategy=strat_detector(["ADWIN", "CUSUM", "PageHinkley", "KdqTreeStreaming", "PCACD"]), nontrivial=lambda L: "nontrivial" in L, quick=500, thorough=10000, shards_quick=8, describe=_desc),
         SubCheck("stream_y", check_detector, strategy=strat_detector(["ADWINAccuracy", "DDM", "EDDM", "STEPD", "LinearFourRates"]), nontrivial=lambda L: "overwrite+2-later-updates" in L, quick=200, thorough=4000, shards_quick=4, describe=_desc),
         SubCheck("batch", check_detector, strategy=strat_detector(["KdqTreeBatch", "HDDDM", "CDBD", "NNDVI"]), nontrivial=lambda L: "nontrivial" in L, quick=600, thorough=12000, shards_quick=16, describe=_desc),
